@@ -448,6 +448,55 @@ def _const_operand(fn, op):
     return None
 
 
+_ADAPTORS = ("find_map", "map", "for_each", "filter_map", "flat_map", "any", "all", "find", "position", "filter", "fold", "try_for_each", "try_fold", "max_by_key", "min_by_key")
+_ITER_ONLY = ("iter", "into_iter", "copied", "cloned", "rev", "deref", "as_slice", "as_ref", "borrow", "by_ref")
+
+
+def _const_candidates(fn, op, depth=3):
+    """the constants an operand can be when it is (derived from) the parameter of a closure that is run over a constant
+    list — `[A, B].iter().find_map(|&id| m.get_one(id))`: {A, B}; None when that cannot be established"""
+    prog = getattr(fn, "prog", None)
+    if prog is None:
+        return None
+    cf = fn
+    o = prim.expand_single_def_vars(cf, prim.origin_of_operand(cf, op))
+    for _ in range(depth):
+        s = o.strip()
+        while s.k in ("ref", "deref") and s.kids:
+            s = s.kids[0].strip()
+        if s.k == "const":
+            return {s.a.get("v")} if isinstance(s.a.get("v"), str) else None
+        if not cf.closure_of:
+            return None
+        parent = prim.closure_parent(prog, cf)
+        if parent is None:
+            return None
+        if s.k == "arg" and s.a.get("idx", 0) >= 2:
+            # the closure's own parameter: what does the parent run the closure over?
+            for pb, pt in parent.calls():
+                if pt.j.get("callee_name") in _ADAPTORS and any(("closure:%s" % cf.path) in prim.origin_of_operand(parent, a).fmt() for a in pt.args[1:]):
+                    recv = prim.resolve_promoted(parent, prim.expand_single_def_vars(parent, prim.origin_of_operand(parent, pt.args[0])))
+                    if any(cn.a["name"] not in _ITER_ONLY for cn in recv.call_nodes()):
+                        return None
+                    arrs = [x for x in recv.walk() if x.k == "agg" and str(x.a) == "array"]
+                    if len(arrs) != 1:
+                        return None
+                    vals = set()
+                    for k_ in arrs[0].kids:
+                        ks = prim.resolve_promoted(parent, k_).strip()
+                        if ks.k != "const" or not isinstance(ks.a.get("v"), str):
+                            return None
+                        vals.add(ks.a["v"])
+                    return vals or None
+            return None
+        # a captured variable of the enclosing closure / function
+        o2 = prim.resolve_upvars(prog, cf, o)
+        if o2.fmt() == o.fmt():
+            return None
+        o, cf = o2, parent
+    return None
+
+
 def t2_extapi(site):
     """library entry points whose panic condition is a function of program constants only (T2b), or of nothing the input
     controls"""
@@ -458,6 +507,9 @@ def t2_extapi(site):
         k = _const_operand(fn, t.args[1]) if len(t.args) > 1 else None
         if k is not None and isinstance(k.a.get("v"), str):
             return "T2b", "clap lookup of the constant id %r: whether the id exists and has this type is decided by the constant argument table (the same on every run)" % k.a["v"]
+        cands = _const_candidates(fn, t.args[1]) if len(t.args) > 1 else None
+        if cands:
+            return "T2b", "clap lookup of an id drawn from the constant list %s (the closure runs over that list only): decided by the constant argument table" % sorted(cands)
         return None
     if n in ("from_str_radix", "is_digit", "to_digit", "from_digit"):
         k = _const_operand(fn, t.args[-1])
